@@ -251,7 +251,7 @@ func c16(ctx *Ctx) (*Outcome, error) {
 	var jobs []*job
 	for i := 0; i < n; i++ {
 		r := sg.NewRng(ctx.Seed, fmt.Sprintf("C16-case-%d", i))
-		o := sg.Opts{MaxDepth: 3, Descs: true, Titles: c01Titles, IntLimits: true, PDefault: 0.3, PNullable: 0.25, PAddProps: 0.3, W: map[string]float64{"compose": 1.2}}
+		o := sg.Opts{MaxDepth: 3, Descs: true, Titles: c01Titles, IntLimits: true, PDefault: 0.3, PNullable: 0.25, PAddProps: 0.3, ComposeDefaults: true, AnyBranch: i%4 == 0, W: map[string]float64{"compose": 2}}
 		if i%3 == 0 {
 			o.Names = []string{"id", "url", "user_id", "httpServer", "alpha", "beta", "camelCase", "snake_case", "x1", "plainName"}
 		}
